@@ -29,6 +29,10 @@ pub enum Bad {
   Width(usize, usize, i8),
   /// block (band, pos) is of another element kind
   Kind(usize, usize, EK),
+  /// two blocks of one band: (band, p) one row taller, (band, q) one row shorter — the cell total of the band can stay what a valid row would have
+  HeightPair(usize, usize, usize),
+  /// two bands: block (b1, p1) one column wider, block (b2, p2) one column narrower
+  WidthPair(usize, usize, usize, usize),
 }
 
 #[derive(Clone, Debug, Serialize, Deserialize)]
@@ -75,7 +79,7 @@ fn tiling(maxr: usize, maxc: usize) -> BoxedStrategy<Vec<Vec<Block>>> {
 impl Prop for C11 {
   type Case = Case;
   const ID: &'static str = "C11";
-  fn budget(t: Tier) -> u32 { t.pick(8_000, 150_000) }
+  fn budget(t: Tier) -> u32 { t.pick(16_000, 200_000) }
   fn strategy(t: Tier, _k: &Known) -> BoxedStrategy<Case> {
     let (mr, mc) = t.pick((4, 4), (8, 8));
     (pick(all_ek()), tiling(mr, mc), 0u8..10, any::<proptest::sample::Index>(), any::<proptest::sample::Index>(), any::<bool>(), pick(all_ek()))
@@ -90,6 +94,15 @@ impl Prop for C11 {
           }
           1 => { if bands.len() >= 2 && (blk.cols as i8 + d) >= 1 { Some(Bad::Width(b, p, d)) } else { None } }
           2 => { let total: usize = bands.iter().map(|x| x.len()).sum(); if total >= 2 && ek2 != ek && compatible_literal(ek, ek2) { Some(Bad::Kind(b, p, ek2)) } else { None } }
+          3 => { // compensating heights inside one band (needs a block that can shrink)
+            let q = (p + 1 + (pi.index(97) % bands[b].len().max(2).saturating_sub(1))) % bands[b].len();
+            if bands[b].len() >= 2 && q != p && bands[b][q].rows >= 2 { Some(Bad::HeightPair(b, p, q)) } else { None }
+          }
+          4 => { // compensating widths in two bands
+            let b2 = (b + 1) % bands.len();
+            let p2 = pi.index(bands[b2].len());
+            if bands.len() >= 2 && b2 != b && bands[b2][p2].cols >= 2 { Some(Bad::WidthPair(b, p, b2, p2)) } else { None }
+          }
           _ => None,
         };
         Case { ek, bands, bad }
@@ -98,7 +111,7 @@ impl Prop for C11 {
   fn rule() -> &'static str {
     "case = tiling of an RxC result (R,C ≤ 4 quick / 8 thorough) into 1-4 row bands of 1-4 blocks each; every block is a scalar, a 1x1 \
      matrix, a row vector, a column vector or a matrix, bound to a variable or written inline; all element kinds; elements are distinct by \
-     final position. Invalid variants perturb one block height/width by ±1 or give one block another kind. Non-trivial = ≥ 2 blocks of \
+     final position. Invalid variants perturb one block height/width by ±1, perturb two blocks in compensating directions (one taller and one shorter in a band, one wider and one narrower in two bands, so that cell totals can still agree), or give one block another kind. Non-trivial = ≥ 2 blocks of \
      which one is not a scalar, or an invalid variant; distinct key = (block shape classes per band, kind, invalid class, outcome)."
   }
   fn assumptions() -> Vec<String> {
@@ -133,6 +146,8 @@ fn render(c: &Case) -> (Vec<String>, Option<Opnd>) {
         Some(Bad::Height(b, p, d)) if *b == bi && *p == pi => br = (br as i8 + d) as usize,
         Some(Bad::Width(b, p, d)) if *b == bi && *p == pi => bc = (bc as i8 + d) as usize,
         Some(Bad::Kind(b, p, k2)) if *b == bi && *p == pi => ek = *k2,
+        Some(Bad::HeightPair(b, p, q)) if *b == bi && (*p == pi || *q == pi) => br = if *p == pi { br + 1 } else { br - 1 },
+        Some(Bad::WidthPair(b1, p1, b2, p2)) if (*b1 == bi && *p1 == pi) || (*b2 == bi && *p2 == pi) => bc = if *b1 == bi && *p1 == pi { bc + 1 } else { bc - 1 },
         _ => {}
       }
       let data: Vec<Sc> = if ek == c.ek && br == blk.rows && bc == blk.cols {
@@ -182,7 +197,7 @@ fn check(c: &Case) -> Verdict {
   if let Some(nm) = sess.last_step_name() { if out.is_ok() { v.label(format!("arm:{}", nm)); } }
   for nm in sess.plan_names() { if nm.contains("Concatenate") { v.label(format!("arm:{}", nm)); } }
   let nonscalar = c.bands.iter().flatten().any(|b| !b.scalar);
-  let badclass = match &c.bad { None => "valid", Some(Bad::Height(..)) => "bad-height", Some(Bad::Width(..)) => "bad-width", Some(Bad::Kind(..)) => "bad-kind" };
+  let badclass = match &c.bad { None => "valid", Some(Bad::Height(..)) => "bad-height", Some(Bad::Width(..)) => "bad-width", Some(Bad::Kind(..)) => "bad-kind", Some(Bad::HeightPair(..)) => "bad-height-pair", Some(Bad::WidthPair(..)) => "bad-width-pair" };
   v.label(format!("class:{}", badclass));
   if (nblocks >= 2 && nonscalar) || c.bad.is_some() { v.key = Some(format!("{}|{}|{}|{}", pattern, kind, badclass, out.class())); }
   if let Outcome::Panic(m) = &out { v.fail(format!("C11|panic-escaped|{}", pattern), m.clone()); return v; }
